@@ -184,7 +184,25 @@ fn bfv_bgv_case(c: &Ctx, rep: &mut Report, rng: &mut Rng, kit: &Kit, oracle: &Op
     let (n, t) = (kit.n(), kit.t());
     let nplain = if n <= 64 { 4 } else { 1 };
     for _ in 0..nplain {
-        let (class, coeffs) = gen_plain(rng, n, t);
+        let (class, mut coeffs) = gen_plain(rng, n, t);
+        let mut class = class;
+        // BFV scales the plaintext by round(q*m/t) = floor(q/t)*m + floor(((q mod t)*m + (t+1)/2)/t) with a two-word numerator:
+        // coefficients m whose product (q mod t)*m lands just below a multiple of 2^64 make the low word carry. They exist only
+        // for t above 32 bits and random data meets them with probability ~t/2^65, so they are planted.
+        if kit.spec.scheme == SchemeType::BFV && t >> 32 != 0 && rng.bool() {
+            let mut planted = 0;
+            for qs in [kit.level_qs(0), kit.key_qs()] {
+                let r = qs.iter().fold(1u128, |a, &q| a * (q % t) as u128 % t as u128);
+                if r == 0 { continue; }
+                let kmax = (r * t as u128) >> 64;
+                for _ in 0..4 { if kmax >= 1 {
+                    let k = 1 + rng.below(kmax.min(u64::MAX as u128) as u64) as u128;
+                    let v = ((k << 64) - 1) / r - rng.below(2) as u128;
+                    if v < t as u128 { if coeffs.len() < n { coeffs.resize(n, 0); } let pos = rng.usize_below(n); coeffs[pos] = v as u64; planted += 1; }
+                } }
+            }
+            if planted > 0 { class = "planted_scaling_carry"; }
+        }
         let p = kit.plain_from_coeffs(&coeffs);
         for &mode in MODES.iter() {
             let op = format!("encrypt:{:?}", mode);
